@@ -32,7 +32,12 @@ package bgp
 //@   modifies nothing
 //@   ensures result == (t.Type >= 128 ? 3 : 2) + int(t.Length)
 //@ func (*EVPNEthernetAutoDiscoveryRoute).DecodeFromBytes
-//@   claims bounds div0 make post
+//@   tag C05 C06 C04
+// from C06 / C04: the route accounts for every octet its Length octet announced - what follows the Ethernet tag is the
+// 3-octet label and nothing else (an NLRI with octets the decoder skips is installed and re-encoded shorter than the
+// Length it is sent with: downstream peers reset on it)
+//@   at-return requires ret0 == nil ==> len(data) == 3
+//@   claims bounds div0 make post at-return
 //@   ensures result != nil ==> isMsgErr(result)
 //@ func (*EVPNEthernetSegmentRoute).DecodeFromBytes
 //@   claims bounds div0 make post
@@ -44,7 +49,10 @@ package bgp
 //@   claims bounds div0 make post
 //@   ensures result != nil ==> isMsgErr(result)
 //@ func (*EVPNMacIPAdvertisementRoute).DecodeFromBytes
-//@   claims bounds div0 make post
+//@   tag C05 C06 C04
+// ... after the first label there is nothing, or exactly one more label
+//@   at-return requires ret0 == nil ==> len(data) == 0 || len(data) == 3
+//@   claims bounds div0 make post at-return
 //@   ensures result != nil ==> isMsgErr(result)
 //@ func (*EVPNMulticastEthernetTagRoute).DecodeFromBytes
 //@   claims bounds div0 make post
